@@ -247,6 +247,22 @@ func C02(p *load.Prog, r *report.Report) {
 			if !ok {
 				ok, _ = samePoint(pt{x, y, z}, negPt(P1), "1")
 			}
+			if !ok && !isC {
+				// a branch-free guard: the result mentions [Z = 0]; decide the two cases separately
+				if za := absint.ISZ(P1.Z).SinglePred(); za != nil {
+					zv := absint.SymVar(FP, "Z1")
+					x0, y0, z0 := x.SubstPred(za, true), y.SubstPred(za, true), z.SubstPred(za, true)
+					z0 = absint.NewVarSubst(zv, pInt(FP, 0)).Poly(z0)
+					_ = x0
+					_ = y0
+					x1, y1, z1 := x.SubstPred(za, false), y.SubstPred(za, false), z.SubstPred(za, false)
+					ok1 := x1.Equal(P1.X) && y1.Equal(P1.Y.Neg()) && z1.Equal(P1.Z)
+					if !ok1 {
+						ok1, _ = samePoint(pt{x1, y1, z1}, negPt(P1), "1")
+					}
+					ok = z0.IsZero() && ok1
+				}
+			}
 			r.Check(ok, "C02.negate", construct, p.Pos(fn.Pos()), "(X : -Y : Z)", fmt.Sprintf("result (%s : %s : %s) is not -P", x, y, z))
 		})
 		r.RequireCount("C02.negate", "paths through Negate", n, 1)
